@@ -411,6 +411,13 @@ class ModelMixin(ModelMixin2, ModelMixin3):
             if d.exact and isinstance(item, (Const, TupleV)) and all(isinstance(k, (Const, TupleV)) for k, _ in d.items):
                 if self._is_concrete(item) and all(self._is_concrete(k) for k, _ in d.items):
                     return [(any(k == item for k, _ in d.items), st)]
+            # membership of a non-literal key: remember the outcome for later subscripts with the same key value
+            s2 = st.copy()
+            self.stats['forks'] += 1
+            kk = repr(self._vk(item, st))
+            st.facts.add(('haskey', container.sym, kk))
+            s2.facts.add(('nokey', container.sym, kk))
+            return [(True, st), (False, s2)]
         if isinstance(container, Ref) and container.kind == 'list':
             le: ListE = st.get(container.sym)
             if le.hi == 0:
@@ -838,6 +845,25 @@ class ModelMixin(ModelMixin2, ModelMixin3):
         if isinstance(c, NoneV):
             return [(self.exc('TypeError', st, node, "'NoneType' object does not support item assignment"), st)]
         self.note('item store on ' + type(c).__name__)
+        return [(NoneV(), st)]
+
+    def model_slice_store(self, c, slc, bounds, val, st: State, node):
+        """parent[a:b] = nodes : replaces the whole range of existing children by the given nodes"""
+        if isinstance(c, Ref) and c.kind == 'elem':
+            self.hook('slice-store', st, node, parent=c, slice=norm(slc) if hasattr(slc, 'lower') else '?', value=val)
+            for sym, e in self.parent_indices(c.sym, st):
+                if e.kind in ('fresh', 'slot', 'end'):
+                    st.put(sym, replace(e, kind='stale', why='children were replaced by a slice assignment'))
+            self.invalidate_parent(c.sym, -1, st)
+            self.log_mut(st, ('setitem', c.sym, None, None))
+            return [(NoneV(), st)]
+        if isinstance(c, Ref) and c.kind == 'list':
+            le = st.get(c.sym)
+            st.put(c.sym, replace(le, kind='accum' if le.kind != 'lit' else 'accum', lo=0, hi=None))
+            return [(NoneV(), st)]
+        if isinstance(c, NoneV):
+            return [(self.exc('TypeError', st, node, "'NoneType' object does not support item assignment"), st)]
+        self.note('slice store on ' + type(c).__name__)
         return [(NoneV(), st)]
 
     def model_delitem(self, c, i, st, node):
